@@ -8,6 +8,7 @@
      an intact plain or compressed input -- C15).  Every fragmentation of the
      stream is such a source.  WHang (fuel) never occurs. *)
 From PP Require Import Warc.WarcDefs Warc.WarcProofs Compress.CompressDefs Compress.CompressProofs Warc.ParallelDefs Warc.ParallelProofs.
+From PP Require Import Warc.WarcCompressed Compress.ToyCodec.
 From Coq Require Import Permutation.
 Local Open Scope Z_scope.
 
@@ -223,3 +224,35 @@ Proof.
   - split; [repeat constructor; lia|]. split; vm_compute; [discriminate|reflexivity].
   - apply bad_missing. right. reflexivity.
 Qed.
+
+(* ---- compressed input: WARCReader over ReadCompressed over an abstract codec that
+   obeys the C15 contract.  Any mix of gzip/bzip2/xz members, any member boundaries
+   (one member per record, one for the whole file, ...), any fragmentation: exactly
+   the records.  (gstate = reader state of C15 plus the ghost "payload not yet
+   delivered"; gread = C15's rd.) *)
+Theorem C17_records_exact_compressed_input :
+  forall (world dstate : Type) (dnew : world -> kind -> dstate * world)
+         (dcall : kind -> dstate -> Z -> list Z -> N -> cres dstate)
+         (member : kind -> list Z -> list Z -> Prop)
+         (DInv : kind -> dstate -> list Z -> list Z -> Prop) (dstall : dstate -> nat),
+    (forall k m p, member k m p -> starts_with (magic_of k) m = true) ->
+    (forall w k m p, member k m p -> DInv k (fst (dnew w k)) m p) ->
+    dcall_contract dstate dcall DInv dstall ->
+    forall (rfuel : nat) (f : frags) (w : world) (raw : list Z) (recs : list (list Z)) (n fuel : nat),
+      mstream member raw (concat recs) -> fbytes f = raw -> Forall wf_record recs ->
+      (2 * length raw < rfuel)%nat -> (length recs < n)%nat -> (length (concat recs) + 1 < fuel)%nat ->
+      exists s0, rc_open world dstate dnew f w = Some s0 /\
+        warc_read_all (gstate world dstate) (gread world dstate dnew dcall rfuel) n fuel (s0, concat recs) [] = AllOk recs.
+Proof. exact warc_compressed_exact_proof. Qed.
+Print Assumptions C17_records_exact_compressed_input.
+
+(* it runs: ex_rec2 compressed by the toy gzip codec as one member, ex_rec1 as a second
+   (toy bzip2) member, delivered byte by byte *)
+Example C17_nonvacuous_compressed :
+  let raw := (magic_of KGz ++ enc ex_rec2 ++ [0]) ++ (magic_of KBz ++ enc ex_rec1 ++ [0]) in
+  match rc_open unit tdec tdnew (map (fun b => [b]) raw) tt with
+  | Some s0 => warc_read_all (gstate unit tdec) (gread unit tdec tdnew tdcall 1000) 5 300 (s0, ex_rec2 ++ ex_rec1) []
+               = AllOk [ex_rec2; ex_rec1]
+  | None => False
+  end.
+Proof. vm_compute. reflexivity. Qed.
